@@ -53,13 +53,30 @@ def obs_plain(obs):
 
 
 def strip_volumes(x):
-    """drop the float traffic accounting from a state: its last digits depend on serialised timestamps (wall clock); what
-    agents see of it -- the traffic and load bands -- is compared through the observation."""
-    if isinstance(x, dict):
-        return {k: strip_volumes(v) for k, v in x.items() if k not in ("traffic", "current_load")}
-    if isinstance(x, list):
-        return [strip_volumes(v) for v in x]
+    """the float traffic accounting of a state is kept: frame sizes are the length of the serialised frame, whose only
+    wall-clock part -- the sent / received time stamps -- is pinned by fix_clock() below, so the volumes are exact"""
     return x
+
+
+def fix_clock():
+    """frames are stamped with datetime.now(); a time stamp whose microseconds happen to be 0 serialises shorter.  Pin the clock
+    the frame module sees so that frame sizes (and with them link loads and traffic counters) depend on the simulation only."""
+    import datetime as _dt
+    import primaite.simulator.network.transmission.data_link_layer as dll
+
+    class _Fixed(_dt.datetime):
+        @classmethod
+        def now(cls, tz=None):
+            return cls(2026, 1, 1, 12, 0, 0, 123456)
+    dll.datetime = _Fixed
+
+
+def mask_of(env):
+    """what the environment hands a masking-aware agent now"""
+    try:
+        return "".join("1" if b else "0" for b in env.action_masks())
+    except Exception as e:
+        return "raised:%s" % type(e).__name__
 
 
 def digest(x):
@@ -89,6 +106,20 @@ def dirty_episode(env, rng, steps):
             game.apply_agent_actions = orig
         if tr:
             break
+    mask_of(env)        # a caller may ask for the mask after the last step of an episode
+
+
+def ping_story(env, count):
+    """the first host pings the second `count` times (ICMP echo request / reply through whatever lies between them)"""
+    hosts = sorted((n for n in env.game.simulation.network.nodes.values() if n.config.type in ("computer", "server") and n.operating_state.name == "ON"),
+                   key=lambda n: n.config.hostname)
+    if len(hosts) < 2:
+        return
+    for _ in range(count):
+        try:
+            hosts[0].ping(str(hosts[1].network_interface[1].ip_address))
+        except Exception:
+            pass
 
 
 def main():
@@ -96,6 +127,7 @@ def main():
     sys.path.insert(0, os.path.join(os.path.dirname(os.path.abspath(__file__)), ".."))
     from lib import world
     from primaite.session.environment import PrimaiteGymEnv
+    fix_clock()
     other = spec.get("other")
     B = None
 
@@ -116,11 +148,15 @@ def main():
     rng = random.Random(77)
     for ep in range(1, spec["measure_episode"]):
         A.reset(seed=spec["reset_seed"] if spec.get("earlier_seed") == "same" else rng.randrange(1000))
+        if spec.get("pings"):
+            ping_story(A, 7)
         if spec.get("dirty"):
             dirty_episode(A, rng, spec["steps"])
     if other and other["when"] in ("before-measured-reset", "closed-mid-episode"):
         B = make_b()
     obs, _ = A.reset(seed=spec["reset_seed"])
+    if spec.get("pings"):
+        ping_story(A, 3)
     if other and other["when"] == "interleaved":
         B = make_b()
     arng = random.Random(spec["action_seed"])
@@ -129,7 +165,7 @@ def main():
     table = {}
     out = sys.stdout
     out.write(json.dumps({"t": -1, "episode_counter": A.episode_counter, "state": digest(strip_volumes(world.norm_state(A.game.simulation.describe_state(), table))),
-                          "obs": digest(world.norm_state(obs_plain(obs), table))}) + "\n")
+                          "obs": digest(world.norm_state(obs_plain(obs), table)), "mask": mask_of(A)}) + "\n")
     for t in range(spec["steps"]):
         if B is not None and other["when"] == "interleaved":
             quiet = other.get("quiet")          # an instance that neither draws from nor re-seeds the process-wide RNG
@@ -143,7 +179,7 @@ def main():
         a = arng.randrange(n) if not spec.get("idle") else 0
         obs, rew, term, trunc, info = A.step(a)
         st = strip_volumes(world.norm_state(A.game.simulation.describe_state(), table))
-        rec = {"t": t, "a": a, "obs": digest(world.norm_state(obs_plain(obs), table)), "rew": repr(float(rew)), "state": digest(st),
+        rec = {"t": t, "a": a, "obs": digest(world.norm_state(obs_plain(obs), table)), "rew": repr(float(rew)), "state": digest(st), "mask": mask_of(A),
                "nodes": {k: digest(v) for k, v in st.get("network", {}).get("nodes", {}).items()}}
         out.write(json.dumps(rec, sort_keys=True) + "\n")
         if trunc:
